@@ -53,6 +53,15 @@ fn main() {
             let count: u64 = args.get(5).and_then(|s| s.parse().ok()).unwrap_or(1);
             e2::worker_main(&mode, seed, first, count);
         }
+        "e2-round" => {
+            let mode = args.get(2).unwrap_or_else(|| usage()).clone();
+            let seed: u64 = args.get(3).and_then(|s| s.parse().ok()).unwrap_or(1);
+            e2::round_main(&mode, seed);
+        }
+        "replay" => {
+            let path = args.get(2).unwrap_or_else(|| usage()).clone();
+            std::process::exit(replay(&path));
+        }
         "check" => {
             let prop = args.get(2).unwrap_or_else(|| usage()).clone();
             let tier = report::tier_from_env(args.get(3).map(|s| s.as_str()));
@@ -120,11 +129,11 @@ fn main() {
                         thorough: 300,
                         par: 16,
                         assumptions: vec!["the oracle is the differential across the restart (plus the absence of re-executed historical triggers); handlers that resume from history are not generated", "generator activity is observed in a 1.5 s window (1 s respawn delay)"],
-                        required: vec!["restarts", "probe_answers_compared"],
+                        required: vec!["restarts", "probe_answers_compared", "restarts.binary_sigkill"],
                     },
                     &tier,
                     seed,
-                    |s, _| c17::run_case(s),
+                    |s, i| if i % 8 == 7 { c17::run_binary_case(s) } else { c17::run_case(s) },
                 ),
                 "C18" => checks_e5::run(
                     checks_e5::Plan {
@@ -212,5 +221,82 @@ fn main() {
             std::process::exit(code);
         }
         _ => usage(),
+    }
+}
+
+
+/// re-execute the single case a saved witness came from (same generator seed; ids and timing differ run to run)
+fn replay(path: &str) -> i32 {
+    let v: serde_json::Value = match std::fs::read(path).ok().and_then(|b| serde_json::from_slice(&b).ok()) {
+        Some(v) => v,
+        None => {
+            eprintln!("cannot read witness {}", path);
+            return 2;
+        }
+    };
+    let prop = v["property"].as_str().unwrap_or("").to_string();
+    let want_sig = v["signature"].as_str().unwrap_or("").to_string();
+    let d = &v["detail"];
+    let u = |k: &str| d[k].as_u64().or_else(|| d[k].as_str().and_then(|s| s.parse().ok()));
+    let mut found: Vec<String> = vec![];
+    match d["engine"].as_str().unwrap_or("") {
+        "E1" if prop == "C20" => found = c20::run_case(u("case_seed").unwrap_or(1)).findings.into_iter().map(|f| f.signature).collect(),
+        "E1" => {
+            let r = e1::run_history(e1::profile(d["profile"].as_str().unwrap_or("c01")), u("case_seed").unwrap_or(1));
+            found = r.findings.into_iter().filter(|f| f.props.iter().any(|p| *p == prop)).map(|f| f.signature).collect();
+        }
+        "E2" => {
+            let out = std::process::Command::new(session::self_exe()).arg("e2-round").arg(d["mode"].as_str().unwrap_or("c02")).arg(u("round_seed").unwrap_or(1).to_string()).output();
+            if let Ok(o) = out {
+                if let Some(r) = String::from_utf8_lossy(&o.stdout).lines().filter_map(|l| serde_json::from_str::<serde_json::Value>(l).ok()).last() {
+                    found = r["violations"].as_array().cloned().unwrap_or_default().iter().filter_map(|x| x["signature"].as_str().map(|s| s.to_string())).collect();
+                }
+            }
+        }
+        "E3" => {
+            let hs = d["finding"]["history_seed"].as_u64().unwrap_or(1);
+            let thorough = v["tier"] == "thorough";
+            let o = e3::run_history(hs, if thorough { 25 } else { 15 }, if thorough { 60 } else { 30 }, if thorough { 48 } else { 10 }, if thorough { 100_000 } else { 260 }, false);
+            found = o.findings.into_iter().map(|f| f.signature).collect();
+        }
+        "E4" => {
+            let r = e4::run_sequence(u("sequence_seed").unwrap_or(1), if v["tier"] == "thorough" { 150 } else { 100 });
+            found = r.findings.into_iter().filter(|f| f.props.iter().any(|p| *p == prop)).map(|f| f.signature).collect();
+        }
+        "E5" => {
+            let s = u("case_seed").unwrap_or(1);
+            let idx = u("case_index").unwrap_or(0) as usize;
+            let r = match prop.as_str() {
+                "C06" => c06::run_case(s),
+                "C10" => c10::run_case(s, idx),
+                "C14" => c14::run_case(s),
+                "C15" => c15::run_case(s),
+                "C16" => c16::run_case(s),
+                "C17" => c17::run_case(s),
+                "C18" => c18::run_case(s),
+                "C19" => c19::run_case(s),
+                "C20" => c20::run_case(s),
+                _ => Default::default(),
+            };
+            found = r.findings.into_iter().filter(|f| f.props.iter().any(|p| *p == prop)).map(|f| f.signature).collect();
+        }
+        _ => {
+            eprintln!("this witness comes from a deterministic generator: re-run `./run {} {}` with VERIF_SEED={}", prop, v["tier"].as_str().unwrap_or("quick"), v["seed"]);
+            return 2;
+        }
+    }
+    found.sort();
+    found.dedup();
+    let want_tail = want_sig.splitn(2, '/').nth(1).unwrap_or(&want_sig).to_string();
+    println!("replayed case of {}: {} finding(s)", prop, found.len());
+    for f in &found {
+        println!("  signature: {}/{}", prop, f);
+    }
+    if found.iter().any(|f| *f == want_tail) {
+        println!("VIOLATION property={} replay={}", prop, path);
+        1
+    } else {
+        println!("the saved signature {} was not reproduced by this re-execution (schedules and ids differ between runs)", want_sig);
+        0
     }
 }
